@@ -64,6 +64,34 @@ def gen_cases(tier, seed):
         for s in shells:
             cost *= len(s["e"]) * (s["l"] + 1) * (s["l"] + 2) / 2 * len(s["k"][0])
         cases.append({"kind": "quartet", "shells": shells, "classes": classes + ["quartet", "ls:%d%d%d%d" % tuple(ls)], "cost": cost / 20})
+    for i in range(10 if tier == "quick" else 60):
+        rng = bases.rng_for("C11", seed, tier, "displaced", i)
+        la, lb, lc, ld = (int(x) for x in rng.integers(0, 3, size=4))
+        p1, c1 = bases.displaced_pair(rng, la, lb, emax=10.0)
+        p2, c2 = bases.displaced_pair(rng, lc, ld, emax=10.0)
+        off = np.array(p1[0]["c"]) - np.array(p2[0]["c"]) + rng.normal(size=3) * 0.8
+        for s_ in p2:
+            s_["c"] = [float(v) for v in np.array(s_["c"]) + off]
+        shells = [dict(s_, t="c") for s_ in (p1 + p2)]
+        cases.append({"kind": "quartet", "shells": shells, "classes": sorted(set(c1 + c2)) + ["quartet"], "cost": 200})
+        cases.append({"kind": "pair", "shells": [dict(s_, t="c") for s_ in p1], "classes": c1 + ["pair"], "cost": 30})
+    for i in range(6 if tier == "quick" else 30):
+        rng = bases.rng_for("C11", seed, tier, "longK", i)
+        K = int(rng.choice([17, 20, 31, 33]))
+        ls = [int(x) for x in rng.integers(0, 3, size=4)]
+        if sum(ls) == 0:
+            ls[2] = 1
+        centers, gcls = bases.rand_centers(rng, 4, None, scale=0.9)
+        shells = []
+        for j, (l, c) in enumerate(zip(ls, centers)):
+            if j == i % 4:
+                e = [float(x) for x in np.exp(np.linspace(np.log(0.15), np.log(8.0), K))]
+                shells.append({"l": l, "c": c, "e": e, "k": bases.rand_coeffs(rng, l, e, 1), "t": "c"})
+            else:
+                s_ = bases.rand_shell(rng, l, K=1, M=1, t="c", center=c, emin=0.3, emax=4.0)
+                s_.pop("_cls")
+                shells.append(s_)
+        cases.append({"kind": "quartet", "shells": shells, "classes": [gcls, "quartet", "longK:%d" % K], "cost": 80 * K})
     rng = bases.rng_for("C11", "ill")
     cen = [[0.0, 0.0, 0.0], [0.9, 0.3, -0.4]]
     for name, bra, ket in c04.ILL:
